@@ -1047,6 +1047,7 @@ func minimiseAndVerify(b *build, prop string, vm violationMsg, seed uint64, race
 				}
 			}
 			pf["trace"] = o.stats["trace"]
+			pf["story"] = o.stats["story"]
 		}
 	}
 	pf["replay_confirmed"] = status == "confirmed"
